@@ -269,3 +269,7 @@ pub mod strict;
 
 // imperative interface to building open hypergraphs
 pub mod lax;
+
+// crate-private routines re-exported for external verification harnesses
+#[cfg(feature = "verif-hooks")]
+pub mod verif_hooks;
